@@ -644,6 +644,115 @@ def run_cases(run: lib.Run, gens, cov: LineCov | None = None, cov_every: int = 0
     run.extra["configurations"] = run.extra.get("configurations", 0) + n
 
 
+
+# ----------------------------------------------------------------------------- the translated source vs CPython
+
+
+def _wire_tuple(t) -> list:
+    return [t.subject, t.relation, t.resource, t.caveat]
+
+
+def translated_jobs(run: lib.Run):
+    """a deterministic slice of the configurations the differential run uses (small scope + random), without re-entrant predicates"""
+    import itertools as it
+    small = it.islice(small_scope(run), 0, None, 9 if run.tier == "quick" else 3)
+    rnd = it.islice(random_scope(run, scale=1, stream=2), 0, 250 if run.tier == "quick" else 1500)
+    n = 0
+    for label, cfg, queries, batch in it.chain(small, rnd):
+        if any(q.get("k") == "reenter" for _, q in cfg["registry"]):
+            continue
+        n += 1
+        if run.tier == "quick" and n > 700:
+            break
+        yield label, cfg, queries[:6] if run.tier == "quick" else queries, batch
+
+
+def translated_vs_python(run: lib.Run) -> tuple[bool, str]:
+    """the translated store / `_split_ref` / checker (Generated.Src.rebac_*, evaluated by `lake env lean --run Rbacx/Run/SrcEvalRebac.lean`
+    with fuel = Rebac.fuelBound, the bound of Translated.check_terminates) against the REAL objects of rbacx.rebac.local on the same
+    arguments: `check`, `batch_check`, `_direct_allowed`, `_split_ref`, `_lookup_expr` (None or not), `_expand`, `direct_for_resource`,
+    `by_subject`, `_caveat_holds`.  The registry outcomes handed to the translation are what `bool(pred(context))` of the real
+    predicates did.  Validates the translator (harness/pytolean_rebac.py) and Model/PyRebac.lean, which C12_translated trusts."""
+    import subprocess
+    jobs, lines = [], []
+    for label, cfg, queries, batch in translated_jobs(run):
+        ctx = cfg["context"]
+        outcomes = []
+        for name, p in cfg["registry"]:
+            try:
+                outcomes.append([name, bool(mk_pred(p)(ctx))])
+            except Exception:  # noqa: BLE001
+                outcomes.append([name, "raises"])
+        d = cfg["deadline"]
+        scripted = d["mode"] == "script"
+        try:
+            chk = build(cfg)
+            want = []
+            for s, r, o in queries:
+                CLOCK.arm(d)
+                ty, ident_ = L._split_ref(o)
+                ex = chk._lookup_expr(ty, r)
+                dfr = list(chk.store.direct_for_resource(r, o))
+                want.append({"check": chk.check(s, r, o, context=ctx), "direct": chk._direct_allowed(s, r, o, ctx), "split": [ty, ident_],
+                             "lookup_none": ex is None, "expand": [list(x) for x in chk._expand(ex, s, o, ctx)],
+                             "dfr": [_wire_tuple(t) for t in dfr], "by_subject": [_wire_tuple(t) for t in chk.store.by_subject(s, r)],
+                             "holds": [chk._caveat_holds(t, ctx) for t in dfr]})
+            wb = None
+            if batch is not None and not scripted:
+                CLOCK.arm(d)
+                wb = chk.batch_check([tuple(t) for t in batch], context=ctx)
+        except Exception as e:  # noqa: BLE001  (a refactored source without these helpers: reported by the obligation, not judged here)
+            run.count("translated-rebac: python raised (not judged)")
+            if len(run.notes) < 5:
+                run.notes.append(f"translated_vs_python: the real code raised {type(e).__name__}: {e} at {label}")
+            continue
+        jobs.append((label, cfg, queries, batch if wb is not None else None, want, wb))
+        lines.append(json.dumps({
+            "tuples": cfg["tuples"], "rules": cfg["rules"], "outcomes": outcomes, "max_depth": str(cfg["max_depth"]),
+            "max_nodes": str(cfg["max_nodes"]), "deadline_ms": str(d["ms"]),
+            "clock": {"script": [str(x) for x in d["clock"]]} if scripted else {"step": str(FakeTime.STEP)},
+            "queries": [list(q) for q in queries], "batch": [list(t) for t in batch] if wb is not None else None}))
+    if not lines:
+        return False, "no configuration could be run on the real code"
+    p = subprocess.run(["lake", "env", "lean", "--run", "Rbacx/Run/SrcEvalRebac.lean"], cwd=lib.LEAN, input="\n".join(lines) + "\n",
+                       capture_output=True, text=True, timeout=900)
+    outs = [ln for ln in p.stdout.split("\n") if ln]
+    if p.returncode != 0 or len(outs) != len(lines):
+        return False, "SrcEvalRebac: " + (p.stderr or p.stdout)[-800:]
+    bad = n = exhausted = 0
+    for (label, cfg, queries, batch, want, wb), ln in zip(jobs, outs):
+        got = json.loads(ln)
+        if "answers" not in got or len(got["answers"]) != len(queries):
+            return False, f"SrcEvalRebac: {ln[:300]}"
+        for q, w, g in zip(queries, want, got["answers"]):
+            n += 1
+            if g["check"] is None:
+                exhausted += 1
+            diff = [k for k in w if g.get(k) != w[k]]
+            run.count("translated-rebac: " + ("check true" if w["check"] else "check false") + (", expands" if w["expand"] else ""))
+            if diff:
+                bad += 1
+                if bad == 1:
+                    run.disagreements.append({"part": "translated source vs python", "label": label, "config": cfg, "query": list(q),
+                                              "differs_in": diff, "impl": {k: w[k] for k in diff}, "translated": {k: g.get(k) for k in diff},
+                                              "fuel": g.get("fuel"),
+                                              "what": "the translated local.py (Generated.Src.rebac_*, fuel = Rebac.fuelBound) and the real code differ in " + ", ".join(diff)})
+        if wb is not None:
+            n += 1
+            run.count("translated-rebac: batch")
+            if got.get("batch") != wb:
+                bad += 1
+                if bad == 1:
+                    run.disagreements.append({"part": "translated source vs python", "label": label, "config": cfg, "batch": [list(t) for t in batch],
+                                              "impl_batch": wb, "translated": got.get("batch"),
+                                              "what": "the translated batch_check and the real one differ"})
+    run.count("translated-rebac", n)
+    run.evaluations += n
+    if exhausted:
+        return False, f"{exhausted} of {n} evaluations ran out of fuel = fuelBound (Translated.check_terminates says they cannot)"
+    return bad == 0, f"{bad} of {n} evaluations differ" if bad else f"agree on {n} evaluations (never out of fuel)"
+
+
 # ----------------------------------------------------------------------------- shrinking / replay
 
 
@@ -757,14 +866,36 @@ def check(run: lib.Run, audit: dict) -> int:
     if not audit["ok"]:
         raise lib.CheckError(f"Lean build/audit failed at {audit['stage']}: "
                              f"{audit.get('log') or audit.get('forbidden') or audit.get('bad_axioms')}")
+    # local.py as it is written NOW, translated into Lean (typed; the BFS loop run with a budget), is proved to terminate within
+    # Rebac.fuelBound and to equal the model the theorems are about
+    tr = audit["facts"].get("translated_rebac")
+    untranslatable = isinstance(tr, dict) and "extraction_failed" in tr
+    ok_tr, detail_tr = lib.run_obligation("C12_translated")
+    run.obligation("C12_translated: Generated.Src.rebac_* (the current source text of rbacx/rebac/local.py: RelTuple, the userset-expression "
+                   "classes, InMemoryRelationshipStore, _split_ref, LocalRelationshipChecker; check's `while queue:` run with a budget) — for every "
+                   "store, rule map, registry outcome table, limits, clock and query the translated check returns within fuelBound = 2 + "
+                   "max_nodes⁺·(sum of the rewrite widths) iterations and then equals the model's Rebac.check under the clock's deadline oracle; "
+                   "_split_ref, add/direct_for_resource/by_subject, _caveat_holds, _direct_allowed, _lookup_expr, _expand, batch_check equal "
+                   "their model counterparts", ok_tr,
+                   "discharged" if ok_tr else (str(tr["extraction_failed"]) if untranslatable else detail_tr))
+    if untranslatable or not isinstance(tr, dict):
+        ok_py, detail_py = True, "skipped: local.py is not in the translatable subset (see C12_translated)"
+    else:
+        ok_py, detail_py = translated_vs_python(run)
+    run.obligation("translated local.py evaluates like the real store / checker (check, batch_check, _direct_allowed, _split_ref, _lookup_expr, "
+                   "_expand, direct_for_resource, by_subject, _caveat_holds; translator + Model/PyRebac.lean vs CPython; never out of fuel)",
+                   ok_py, detail_py)
+    tr_disagreements = [c for c in run.disagreements if c.get("part") == "translated source vs python"]
+    run.disagreements = [c for c in run.disagreements if c.get("part") != "translated source vs python"]
     cov = LineCov()
     run_cases(run, [small_scope(run), random_scope(run, scale=run.boost), reentrant_scope(run, scale=run.boost)], cov, cov_every=7)
     run.extra["anchored_line_coverage"] = cov.report()
     run.extra["clock_reads"] = CLOCK.reads
     violations = []
-    if run.disagreements and not run.spec_failures:
+    if (run.disagreements or not ok_tr) and not run.spec_failures:
         scale = 5 if run.tier == "quick" else 1
-        run.notes.append(f"correspondence broke: widened the random search (×{scale}, fresh stream) looking for a spec failure")
+        run.notes.append(("correspondence broke" if run.disagreements else "the translation tie (C12_translated) broke")
+                         + f": widened the random search (×{scale}, fresh stream) looking for a spec failure")
         run_cases(run, [random_scope(run, scale=scale, stream=1)])
     if run.spec_failures:
         first = run.spec_failures[0]
@@ -782,6 +913,21 @@ def check(run: lib.Run, audit: dict) -> int:
                            "[c, rel] ComputedUserset | [t, tupleset, computed] TupleToUserset | [u, [..]] union; deadline.ms = deadline_ms "
                            "under a clock advancing 1 ms per read"})
         violations.append((path, True))
+    elif not ok_tr:
+        path = run.write_replay("obligation", {
+            "what": "per-run obligation Rbacx/Run/C12_translated.lean no longer checks: the translated source of rbacx/rebac/local.py is not "
+                    "proved to terminate within fuelBound and to equal the model's Rebac.check (and helpers), the functions theorems "
+                    "Rbacx.C12.* are about; the widened search found no input on which the implementation contradicts the derivability spec",
+            "translation": tr if untranslatable else "translated (see lean/Rbacx/Generated.lean, Src.rebac_*)", "lean": detail_tr[-1500:],
+            "first_disagreement": (run.disagreements or tr_disagreements)[:1]})
+        violations.append((path, False))
+    elif tr_disagreements or not ok_py:
+        first = tr_disagreements[0] if tr_disagreements else {"part": "translated source vs python", "what": detail_py}
+        path = run.write_replay("correspondence", {
+            "what": "translated source vs python: " + str(first.get("what")) + "; the obligation C12_translated rests on a translation that "
+                    "CPython contradicts (or that could not be evaluated)",
+            "first": first, "count": len(tr_disagreements)})
+        violations.append((path, False))
     elif run.disagreements:
         path = run.write_replay("correspondence", {
             "what": "model (Rbacx.Rebac.check / batchCheck) and implementation disagree on the boolean answer; theorems Rbacx.C12.* "
